@@ -43,7 +43,7 @@ def emDelims : Nat → CC → Nat → Bytes → List Delim
       (if co || cc then [(⟨b, len, len, co, cc, pos + len⟩ : Delim)] else []) ++ emDelims fuel .punct (pos + len) rest
     else emDelims fuel (ccOf b) (pos + 1) r
 
-/-- Decidable form of `C06.noOddMatch` (hypothesis of `emphasis_linear_pinned`). -/
+/-- Decidable form of `C06.noOddMatch` (hypothesis of `emphasis_linear_old_noodd`). -/
 def noOddB (ds : List Delim) : Bool :=
   ds.all fun o => ds.all fun c => !(o.canOpen && c.canClose && o.ch == c.ch) || !oddMatch o c
 
@@ -60,8 +60,9 @@ def handle : Handler := fun cmd args =>
   | "c06em", [h] => some do
       let b ← hexArg h
       let ds := emDelims b.length .ws 0 b
-      -- <steps as pinned> <steps with the repair> <delimiters> <delimiter characters> <no odd match: 1/0>
-      pure s!"{optNat (emSteps false ds)} {optNat (emSteps true ds)} {ds.length} {sumCur ds} {if noOddB ds then 1 else 0}"
+      -- <steps of the code as it is> <steps of the loop before /repo commit 9704a60> <delimiters>
+      -- <delimiter characters> <no odd match: 1/0>
+      pure s!"{optNat (emSteps true ds)} {optNat (emSteps false ds)} {ds.length} {sumCur ds} {if noOddB ds then 1 else 0}"
   | "c06dl", [h] => some do
       let b ← hexArg h
       let ev := dlEvents b
